@@ -18,9 +18,58 @@ import (
 )
 
 type initSlice struct {
-	fn     *ssa.Function
-	instrs map[ssa.Instruction]bool
-	multi  bool // init has several blocks and a sliced instr is outside block 0
+	fn        *ssa.Function
+	instrs    map[ssa.Instruction]bool // phase A: the variable's own initialiser
+	initCalls []*ssa.Call              // phase B: explicit init#N functions that mention the variable
+	multi     bool                     // init has several blocks and a sliced instr is outside block 0
+}
+
+var (
+	mentionMu    sync.Mutex
+	mentionCache = map[*ssa.Function][]*ssa.Global{}
+)
+
+// mentionedGlobals lists the same-package globals fn refers to (callees to depth 2).
+func mentionedGlobals(fn *ssa.Function) []*ssa.Global {
+	mentionMu.Lock()
+	defer mentionMu.Unlock()
+	if r, ok := mentionCache[fn]; ok {
+		return r
+	}
+	set := map[*ssa.Global]bool{}
+	var walk func(f *ssa.Function, depth int, seen map[*ssa.Function]bool)
+	walk = func(f *ssa.Function, depth int, seen map[*ssa.Function]bool) {
+		if seen[f] || f.Blocks == nil {
+			return
+		}
+		seen[f] = true
+		for _, b := range f.Blocks {
+			for _, ins := range b.Instrs {
+				for _, op := range ins.Operands(nil) {
+					if gl, ok := (*op).(*ssa.Global); ok && gl.Pkg == fn.Pkg {
+						set[gl] = true
+					}
+				}
+				if depth > 0 {
+					if c, ok := ins.(ssa.CallInstruction); ok {
+						if callee := c.Common().StaticCallee(); callee != nil && callee.Pkg == fn.Pkg {
+							walk(callee, depth-1, seen)
+						}
+					}
+				}
+			}
+		}
+		for _, af := range f.AnonFuncs {
+			walk(af, depth, seen)
+		}
+	}
+	walk(fn, 2, map[*ssa.Function]bool{})
+	var r []*ssa.Global
+	for gl := range set {
+		r = append(r, gl)
+	}
+	mentionCache[fn] = r
+	return r
 }
 
 var (
@@ -186,7 +235,7 @@ func computeSlice(g *ssa.Global) *initSlice {
 				// explicit init#N functions that mention g
 				if callee := ins.Call.StaticCallee(); callee != nil && callee.Pkg == g.Pkg && strings.HasPrefix(callee.Name(), "init#") {
 					if mentionsGlobal(callee, g, 2, map[*ssa.Function]bool{}) {
-						include(ins)
+						s.initCalls = append(s.initCalls, ins)
 					}
 				}
 			}
@@ -231,6 +280,39 @@ func mentionsGlobal(fn *ssa.Function, g *ssa.Global, depth int, seen map[*ssa.Fu
 
 func (i *interpreter) initGlobal(g *ssa.Global) {
 	s := computeSlice(g)
+	i.initPhaseA(g, s)
+	// phase B: explicit init functions mentioning g, each at most once per path.  Go runs
+	// init() after all variable initialisers, so while some variable initialiser is still
+	// being evaluated (phaseADepth > 0) the calls are queued and run when it has finished.
+	for _, c := range s.initCalls {
+		i.pendingInits = append(i.pendingInits, pendingInit{c, s.fn})
+	}
+	i.runPendingInits()
+}
+
+type pendingInit struct {
+	call *ssa.Call
+	fn   *ssa.Function
+}
+
+func (i *interpreter) runPendingInits() {
+	for i.phaseADepth == 0 && len(i.pendingInits) > 0 {
+		p := i.pendingInits[0]
+		i.pendingInits = i.pendingInits[1:]
+		callee := p.call.Call.StaticCallee()
+		if i.initFnDone == nil {
+			i.initFnDone = map[*ssa.Function]bool{}
+		}
+		if i.initFnDone[callee] {
+			continue
+		}
+		i.initFnDone[callee] = true
+		fr := &frame{i: i, fn: p.fn}
+		call(i, fr, p.call.Pos(), callee, nil)
+	}
+}
+
+func (i *interpreter) initPhaseA(g *ssa.Global, s *initSlice) {
 	if len(s.instrs) == 0 {
 		return
 	}
@@ -238,7 +320,8 @@ func (i *interpreter) initGlobal(g *ssa.Global) {
 		panic(unsupported("global initialisation recursion too deep at " + g.String()))
 	}
 	i.initDepth++
-	defer func() { i.initDepth-- }()
+	i.phaseADepth++
+	defer func() { i.initDepth--; i.phaseADepth-- }()
 	fn := s.fn
 	fr := &frame{i: i, fn: fn}
 	fr.env = make(map[ssa.Value]value)
